@@ -102,6 +102,8 @@ impl TypedProgram {
         let mut consts_signed = HashMap::new();
 
         let mut errs = vec![];
+        #[cfg(feature = "verif_hooks")]
+        crate::verif_hooks::hash_iter("compile::const_deps", self.const_deps.keys());
         for (party, deps) in self.const_deps.iter() {
             for (c, (ty, meta)) in deps {
                 let Some(party_deps) = consts.get(party) else {
@@ -232,6 +234,8 @@ impl TypedProgram {
             cache_gates: opts.optimize_duplicate_gates,
         };
         let mut circuit = CircuitBuilder::new(input_gates, const_sizes.clone(), builder_opts);
+        #[cfg(feature = "verif_hooks")]
+        crate::verif_hooks::hash_iter("compile::const_defs", self.const_defs.keys());
         // Bind the consts in source order (not in hash order), so that a const which refers to
         // another const always finds it in the env, independently of the hash seed.
         for (const_name, const_def) in sorted_const_defs {
